@@ -14,4 +14,4 @@ def run(ctx):
                        "higher priority), preemptible and non-preemptible jobs, 2-3 priorities, 2-3 level queue trees, leaf min-runtime "
                        "settings with start times hours away from the limits; non-trivial = the real scheduler evicted at least one pod")
     n = 300 if ctx.quick else 8000
-    st_cluster.run_stage(ctx, PREFIXES, [("full", n // 2), ("closed", n // 4), ("mixed", n // 4)], nontrivial_fn=nontrivial)
+    st_cluster.run_stage(ctx, PREFIXES, [("full", n // 4), ("closed", n // 8), ("mixed", n // 8), ("minrt", n // 2)], nontrivial_fn=nontrivial)
